@@ -41,6 +41,19 @@ Fixpoint bytes_eqb (a b : bytes) : bool :=
   | _, _ => false
   end.
 
+(* max_expand's second loop: keeps trying with fewer repetitions *)
+Fixpoint max_down (call : list cap -> Z -> Z -> mres) (caps : list cap) (s0 ep : Z) (k : nat) (i : Z) : mres :=
+  match call caps (s0 + i) (ep + 1) with
+  | MFail => match k with O => MFail | S k' => if i - 1 <? 0 then MFail else max_down call caps s0 ep k' (i - 1) end
+  | r => r
+  end.
+(* min_expand: tries with one more repetition while the single-char item keeps matching *)
+Fixpoint min_up (sm : Z -> bool) (call : list cap -> Z -> Z -> mres) (caps : list cap) (ep : Z) (k : nat) (s1 : Z) : mres :=
+  match call caps s1 (ep + 1) with
+  | MFail => if sm s1 then match k with O => MFuel | S k' => min_up sm call caps ep k' (s1 + 1) end else MFail
+  | r => r
+  end.
+
 Section Matcher.
   Variable cfg : mcfg.
   Variable src pat : bytes.
@@ -148,103 +161,98 @@ Section Matcher.
 
   Definition enter (depth : Z) : option Z := cfg_enter cfg depth.
 
-  (* the body of match()/_match(); [fuel] bounds every recursive call AND every `goto init` *)
+  (* the body of match()/_match().  [call]: a C-level recursive call (budget check on entry);
+     [again]: `goto init` / `continue` with a new position *)
+  Definition match_body (call : list cap -> Z -> Z -> mres) (again : Z -> Z -> mres)
+             (caps : list cap) (s p : Z) : mres :=
+    if negb (p <? plen) then MFound s caps
+    else
+      let c := P p in
+      let dflt := fun (_ : unit) =>
+        match class_end p with
+        | None => MError
+        | Some ep =>
+            let epc := P ep in
+            if negb (single_match s p ep) then
+              (if (epc =? 42) || (epc =? 63) || (epc =? 45) then again s (ep + 1) else MFail)
+            else if epc =? 63 then
+              match call caps (s + 1) (ep + 1) with
+              | MFail => again s (ep + 1)
+              | r => r
+              end
+            else if (epc =? 43) || (epc =? 42) then
+              let s0 := if epc =? 43 then s + 1 else s in
+              let i := count_max (S (length src)) s0 p ep 0 in
+              max_down call caps s0 ep (S (length src)) i
+            else if epc =? 45 then
+              min_up (fun s1 => single_match s1 p ep) call caps ep (S (length src)) s
+            else again (s + 1) ep
+        end in
+      if c =? 40 then                                  (* '(' *)
+        (if Z.of_nat (length caps) <? cfg_maxcap cfg then
+           if P (p + 1) =? 41 then call (caps ++ [(s, CAP_POSITION)]) s (p + 2)
+           else call (caps ++ [(s, CAP_UNFINISHED)]) s (p + 1)
+         else MError)                                   (* "too many captures" *)
+      else if c =? 41 then                             (* ')' *)
+        match to_close caps (length caps) with
+        | None => MError                                (* "invalid pattern capture" *)
+        | Some l =>
+            match nth_error caps l with
+            | Some (ci, _) => call (set_len caps l (s - ci)) s (p + 1)
+            | None => MError
+            end
+        end
+      else if (c =? 36) && (p + 1 =? plen) then        (* '$' at the end *)
+        (if s =? slen_ then MFound s caps else MFail)
+      else if c =? 37 then                             (* '%' *)
+        let n := P (p + 1) in
+        if n =? 98 then                                (* %b *)
+          (if negb (p + 2 <? plen - 1) then MError
+           else if (slen_ <=? s) || negb (S_ s =? P (p + 2)) then MFail
+           else match balance_loop (S (length src)) (s + 1) (P (p + 2)) (P (p + 3)) 1 with
+                | Some s' => again s' (p + 4)
+                | None => MFail
+                end)
+        else if n =? 102 then                          (* %f *)
+          let p2 := p + 2 in
+          if negb (P p2 =? 91) then MError
+          else match class_end p2 with
+               | None => MError
+               | Some ep =>
+                   if cfg_front_prev_unsafe_on_empty cfg && (s =? 0) && negb (s <? slen_) then MUnsafe
+                   else
+                     let prev := if s =? 0 then 0 else S_ (s - 1) in
+                     let next := if s =? slen_ then 0 else S_ s in
+                     if negb (match_bracket_class prev p2 (ep - 1)) && match_bracket_class next p2 (ep - 1)
+                     then again s ep else MFail
+               end
+        else if (48 <=? n) && (n <=? 57) then          (* back reference *)
+          let l := n - 49 in
+          if (l <? 0) || (Z.of_nat (length caps) <=? l) then MError
+          else match nth_error caps (Z.to_nat l) with
+               | None => MError
+               | Some (ci, cl) =>
+                   if cl =? CAP_UNFINISHED then MError
+                   else
+                     (* (size_t)len: a position capture (-2) becomes huge and never fits *)
+                     if (0 <=? cl) && (cl <=? slen_ - s) && bytes_eqb (slice src ci cl) (slice src s cl)
+                     then again (s + cl) (p + 2) else MFail
+               end
+        else dflt tt
+      else dflt tt.
+
+  (* [fuel] bounds every recursive call AND every `goto init` along one path *)
   Fixpoint do_match (fuel : nat) (depth : Z) (caps : list cap) (s p : Z) {struct fuel} : mres :=
     match fuel with
     | O => MFuel
     | S f =>
-        (* a C-level recursive call: budget check on entry *)
-        let call := fun (caps : list cap) (s p : Z) =>
-          match enter depth with
-          | None => MTooComplex
-          | Some d => do_match f d caps s p
-          end in
-        let again := fun (s p : Z) => do_match f depth caps s p in      (* goto init / continue *)
-        if negb (p <? plen) then MFound s caps
-        else
-          let c := P p in
-          let dflt := fun (_ : unit) =>
-            match class_end p with
-            | None => MError
-            | Some ep =>
-                let epc := P ep in
-                if negb (single_match s p ep) then
-                  (if (epc =? 42) || (epc =? 63) || (epc =? 45) then again s (ep + 1) else MFail)
-                else if epc =? 63 then
-                  match call caps (s + 1) (ep + 1) with
-                  | MFail => again s (ep + 1)
-                  | r => r
-                  end
-                else if (epc =? 43) || (epc =? 42) then
-                  let s0 := if epc =? 43 then s + 1 else s in
-                  let i := count_max (S (length src)) s0 p ep 0 in
-                  (fix down (k : nat) (i : Z) : mres :=
-                     match call caps (s0 + i) (ep + 1) with
-                     | MFail => match k with O => MFail | S k' => if i - 1 <? 0 then MFail else down k' (i - 1) end
-                     | r => r
-                     end) (S (length src)) i
-                else if epc =? 45 then
-                  (fix up (k : nat) (s1 : Z) : mres :=
-                     match call caps s1 (ep + 1) with
-                     | MFail => if single_match s1 p ep then
-                                  match k with O => MFuel | S k' => up k' (s1 + 1) end
-                                else MFail
-                     | r => r
-                     end) (S (length src)) s
-                else again (s + 1) ep
-            end in
-          if c =? 40 then                                  (* '(' *)
-            (if Z.of_nat (length caps) <? cfg_maxcap cfg then
-               if P (p + 1) =? 41 then call (caps ++ [(s, CAP_POSITION)]) s (p + 2)
-               else call (caps ++ [(s, CAP_UNFINISHED)]) s (p + 1)
-             else MError)                                   (* "too many captures" *)
-          else if c =? 41 then                             (* ')' *)
-            match to_close caps (length caps) with
-            | None => MError                                (* "invalid pattern capture" *)
-            | Some l =>
-                match nth_error caps l with
-                | Some (ci, _) => call (set_len caps l (s - ci)) s (p + 1)
-                | None => MError
-                end
-            end
-          else if (c =? 36) && (p + 1 =? plen) then        (* '$' at the end *)
-            (if s =? slen_ then MFound s caps else MFail)
-          else if c =? 37 then                             (* '%' *)
-            let n := P (p + 1) in
-            if n =? 98 then                                (* %b *)
-              (if negb (p + 2 <? plen - 1) then MError
-               else if (slen_ <=? s) || negb (S_ s =? P (p + 2)) then MFail
-               else match balance_loop (S (length src)) (s + 1) (P (p + 2)) (P (p + 3)) 1 with
-                    | Some s' => again s' (p + 4)
-                    | None => MFail
-                    end)
-            else if n =? 102 then                          (* %f *)
-              let p2 := p + 2 in
-              if negb (P p2 =? 91) then MError
-              else match class_end p2 with
-                   | None => MError
-                   | Some ep =>
-                       if cfg_front_prev_unsafe_on_empty cfg && (s =? 0) && negb (s <? slen_) then MUnsafe
-                       else
-                         let prev := if s =? 0 then 0 else S_ (s - 1) in
-                         let next := if s =? slen_ then 0 else S_ s in
-                         if negb (match_bracket_class prev p2 (ep - 1)) && match_bracket_class next p2 (ep - 1)
-                         then again s ep else MFail
-                   end
-            else if (48 <=? n) && (n <=? 57) then          (* back reference *)
-              let l := n - 49 in
-              if (l <? 0) || (Z.of_nat (length caps) <=? l) then MError
-              else match nth_error caps (Z.to_nat l) with
-                   | None => MError
-                   | Some (ci, cl) =>
-                       if cl =? CAP_UNFINISHED then MError
-                       else
-                         (* (size_t)len: a position capture (-2) becomes huge and never fits *)
-                         if (0 <=? cl) && (cl <=? slen_ - s) && bytes_eqb (slice src ci cl) (slice src s cl)
-                         then again (s + cl) (p + 2) else MFail
-                   end
-            else dflt tt
-          else dflt tt
+        match_body
+          (fun caps s p => match enter depth with
+                           | None => MTooComplex
+                           | Some d => do_match f d caps s p
+                           end)
+          (fun s p => do_match f depth caps s p)
+          caps s p
     end.
 End Matcher.
 
